@@ -16,7 +16,7 @@ THEOREMS = ["subslice_spec", "subslice_wf", "copy_spec", "copyArray_memmove", "a
             "clone_deep", "copy_in_place", "no_sharing", "value_semantics_partial", "cloneAt_newLocation",
             "value_semantics", "no_sharing_cloneAt", "after_repair_witnesses",
             "ptr_identity", "ptr_eq_iff", "ptr_wf_preserved", "alias_semantics", "inplace_assignment_keeps_pointers",
-            "before_repair_growslice", "before_repair_box", "before_repair_range", "before_repair_boundCall",
+            "bound_receiver_rule", "before_repair_growslice", "before_repair_box", "before_repair_range", "before_repair_boundCall",
             "before_repair_ifaceCall"]
 
 SIG_GROW = "C07 append-realloc elem=struct|array element-objects-shared-with-old-array"
@@ -397,7 +397,7 @@ def gen_probe(pid, rng, types, forced=None):
         if ctx in ("rangeValue", "rangeOperand"):
             if any(q and subtype(T, q[:-1])["k"] == "a" and (ctx == "rangeValue" or subtype(T, q[:-1])["n"] >= 2) for q in sps0):
                 break
-        elif ctx in ("recvValue", "methodValue", "ifaceCall"):
+        elif ctx in ("recvValue", "methodValue", "ifaceCall", "boundRecv"):
             if any(subtype(T, q)["named"] for q in sps0):
                 break
         else:
@@ -426,7 +426,7 @@ def gen_probe(pid, rng, types, forced=None):
         else:
             p = rng.choice(cands)
     U = subtype(T, p)
-    if ctx in ("recvValue", "methodValue", "ifaceCall") and not U["named"]:
+    if ctx in ("recvValue", "methodValue", "ifaceCall", "boundRecv") and not U["named"]:
         named = [q for q in sps if subtype(T, q)["named"]]
         p = rng.choice(named) if named else []
         U = subtype(T, p)
@@ -629,6 +629,80 @@ def gen_probe(pid, rng, types, forced=None):
             pr.dump(T, xval); M.append("dump:0")
         pr.sigs[1] = SIG_IFACE
         pr.sigs[2] = SIG_IFACE
+    elif ctx == "boundRecv":
+        # the receiver of a method value / defer / go statement is evaluated and COPIED when the statement executes,
+        # according to the method's (value) receiver type, whatever the operand is: a value, a pointer (automatic
+        # dereference; also pointer to a named array type), a path through an embedded *T / T, an element, a map value
+        binding = rng.choice(["methodValue", "methodValue", "defer", "go"])
+        operand = rng.choice(["value", "ptr", "ptr", "embedptr", "embedval", "elem", "mapval"])
+        m = ["func (y %s) b%d(base int, done chan bool) {" % (Ugo, pid)]
+        for k, (lp, lt) in enumerate(leaves(U)):
+            m.append("println(%d, base, %d, %s)" % (pid, k, getv(lt, "y" + sel(U, lp))))
+        m.append("y%s = %s" % (sel(U, q2), setv(l2, 200)))
+        m.append("done <- true")
+        m.append("}")
+        pr.top.append("\n".join(m))
+        B.append("done := make(chan bool, 4)")
+        sx = (x + sel(T, p)) if p else xval
+        S, SP, stor = 0, p, sx
+        if operand == "value":
+            op, mexpr = "(%s)" % sx, "0/%s" % pstr(p)
+        elif operand == "ptr":
+            B.append("pp := &%s" % sx)
+            op, mexpr = "pp", "deref>0/%s" % pstr(p)
+        elif operand == "embedptr":
+            pr.top.append("type E%d struct{ *%s }" % (pid, Ugo))
+            B.append("e := E%d{&%s}" % (pid, sx))
+            op, mexpr = "e", "deref>0/%s" % pstr(p)
+        elif operand == "embedval":
+            pr.top.append("type V%d struct{ %s }" % (pid, Ugo))
+            B.append("e := V%d{%s}" % (pid, sx)); M.append("bind:litElem:0/%s" % pstr(p))
+            S, SP, stor = 1, [], "e.%s" % Ugo
+            op, mexpr = "e", "1/_"
+        elif operand == "elem":
+            B.append("s := []%s{%s, %s}" % (Ugo, sx, sx)); M.append("bind:litElem:0/%s" % pstr(p))
+            S, SP, stor = 1, [], "s[1]"
+            op, mexpr = "s[1]", "1/_"
+        else:
+            B.append("mm := map[int]%s{1: %s}" % (Ugo, sx)); M.append("bind:mapStore:0/%s" % pstr(p))
+            S, SP, stor = 1, [], "mm[1]"
+            op, mexpr = "mm[1]", "mapLoad>1/_"
+        r = S + 1
+        bctx = {"methodValue": "methodValue", "defer": "deferRecv", "go": "goRecv"}[binding]
+        # the mutation made AFTER binding and BEFORE the method runs
+        if operand == "mapval":
+            mut = "tmp := mm[1]\ntmp%s = %s\nmm[1] = tmp" % (sel(U, q1), setv(l1, 100))
+        else:
+            how = rng.choice(["var", "alias", "ptr" if operand == "ptr" else "var"])
+            if how == "alias":
+                mut = "al := &%s\nal%s = %s" % (stor, sel(U, q1), setv(l1, 100))
+            elif how == "ptr":
+                mut = "pp%s = %s" % (sel(U, q1), setv(l1, 100))
+            else:
+                mut = "%s%s = %s" % (stor if (S or p) else x, sel(U, q1), setv(l1, 100))
+        mut_m = "set:%d:%s:100" % (S, pstr(SP + q1))
+        M.append("bind:%s:%s" % (bctx, mexpr))
+        ninv = 2 if binding == "methodValue" else 1
+        if binding == "methodValue":
+            B.append("f := %s.b%d" % (op, pid))
+            B.append(mut)
+            B.append("f(0, done)\nf(1, done)")
+        elif binding == "defer":
+            B.append("func() {\ndefer %s.b%d(0, done)\n%s\n}()" % (op, pid, mut))
+        else:
+            B.append("go %s.b%d(0, done)" % (op, pid))
+            B.append(mut)
+            B.append("<-done")
+        M.append(mut_m)
+        for k in range(ninv):
+            M.append("bind:boundCall:%d/_" % r)
+            M.append("dump:%d" % (r + 1 + k))
+            M.append("set:%d:%s:200" % (r + 1 + k, pstr(q2)))
+        pr.ndump = ninv
+        if S == 0:
+            pr.dump(T, xval); M.append("dump:0")
+        else:
+            pr.dump(U, stor); M.append("dump:1")
     elif ctx == "reassign":
         # a WHOLE-variable assignment after pointers into the variable were taken: the variable keeps its storage, so
         # the old pointers (to the variable, to a leaf field/element of it, a bound pointer-receiver method value) stay attached
@@ -800,7 +874,7 @@ def gen_probe(pid, rng, types, forced=None):
 
 
 CONTEXTS = ["define", "arg", "rangeValue", "rangeOperand", "send", "mapStore", "litElem", "box", "recvValue", "methodValue", "ifaceCall",
-            "assign", "ptrStore", "elemStore", "fieldStore", "reassign", "reassign"]
+            "assign", "ptrStore", "elemStore", "fieldStore", "reassign", "reassign", "boundRecv", "boundRecv"]
 
 
 # ---- aliasing probes (no Lean value model: pointers/closures; native Go is the specification) -----------------------
@@ -1246,6 +1320,9 @@ EXPECTED_SITES = {
     ("statements.go", "translateAssign", "$clone("): 1,                                   # define
     ("statements.go", "translateAssign", ".copy("): 1,                                    # assign (in place)
     ("utils.go", "translateArgs", "translateImplicitConversionWithCloning"): 1,          # arg
+    # makeReceiver: the receiver copy is decided by the METHOD's declared receiver type, not by the operand's type
+    ("expressions.go", "makeReceiver", "receiver-clone-by: methodsRecvType"): 1,
+    ("expressions.go", "makeReceiver", "receiver-clone-type: methodsRecvType := sel.Obj().Type().(*types.Signature).Recv().Type()"): 1,
     # translateAssign's decision "copy in place vs rebind": the guarded returns that precede / contain `T.copy(dst, src)`
     ("statements.go", "translateAssign", 'return-before-copy: l, ok := lhs.(*ast.IndexExpr); ok && t, ok := fc.typeOf(l.X).Underlying().(*types.Map); ok => `%s = %s; (%s || $throwRuntimeError("assignment to entry in nil map")).set(%s.keyFor(%s), { k: %s, v: %s });`'): 1,
     ("statements.go", "translateAssign", 'return-before-copy: _, ok := rhs.(*ast.CompositeLit); ok && define => "%s = %s;"'): 1,    # the ONLY rebind: `x := T{...}`
